@@ -57,6 +57,10 @@ def get_line_range_for_node(
 
     """
     first_lineno = node.lineno
+    # The decorators of a function or class are part of the node, but its lineno is
+    # that of the "def" or "class" line.
+    for decorator in getattr(node, "decorator_list", []):
+        first_lineno = min(first_lineno, decorator.lineno)
     # iterate through all childnodes and find the max lineno
     last_lineno = first_lineno + 1
     for childnode in ast.walk(node):
